@@ -21,8 +21,9 @@ def h(name, unwind, body, props, tier, bounds, functions, cost=60, stub="nogrow"
 P8 = "P=(u8,u8), all lengths 0..=8, all host bits; T=u8"
 DESCENT = ["Table::get_direction", "Prefix::{eq,contains,is_bit_set,mask} for (u8,u8)"]
 INS = ["Table::get_direction_for_insert", "PrefixMap::new_node", "Table::set_child", "Prefix::longest_common_prefix"]
+INV_PROPS = ["C01", "C02", "C03", "C04", "C09", "C10", "C11", "C12", "C13", "C18", "C19", "C20"]
 GROUPS = {"ret": ("step::RET", ["C01", "C18"]), "len": ("step::LEN", ["C04"]),
-          "shape": ("step::SHAPE", ["C15"]), "slots": ("step::SLOTS", ["C16"])}
+          "shape": ("step::SHAPE", ["C15"] + INV_PROPS), "slots": ("step::SLOTS", ["C16"] + INV_PROPS)}
 
 
 def pre_txt(n, f):
@@ -46,6 +47,9 @@ obs("obs_lpm", "lpm", ["C02", "C18"], ["PrefixMap::get_lpm", "PrefixMap::get_lpm
 obs("obs_lpm_mut", "lpm_mut", ["C02", "C13", "C14"], ["PrefixMap::get_lpm_mut", "Node::prefix_value_mut"], ((3, "quick", 60), (4, "thorough", 200)))
 obs("obs_spm", "spm", ["C09", "C18"], ["PrefixMap::get_spm", "PrefixMap::get_spm_prefix"], ((3, "quick", 60), (4, "thorough", 200)))
 obs("obs_cover", "cover", ["C09", "C02", "C18"], ["PrefixMap::cover", "Cover::next"], ((3, "quick", 120), (4, "thorough", 400)))
+h("cover_chain_n4", 6, "obs::cover_chain", ["C09", "C02", "C20"], "quick",
+  "the 4-slot chain root->1->2->3 (concrete child indices; sides, prefixes, values symbolic): cover(q) whole iteration; smallest shape with two consecutive value-less non-root nodes on the path; unwind 6",
+  ["PrefixMap::cover", "Cover::next", "Table::get_direction"], cost=200)
 obs("obs_cover_proj", "cover_proj", ["C09"], ["PrefixMap::cover_keys", "PrefixMap::cover_values", "CoverKeys::next", "CoverValues::next"], ((2, "quick", 60),))
 obs("obs_set", "set_obs", ["C01", "C02", "C09", "C18", "C04"], ["PrefixSet::{contains,get,get_lpm,get_spm,cover,len,is_empty}"], ((3, "quick", 120),))
 
@@ -109,13 +113,13 @@ for n, f, tier, cost, mem in ((2, 0, "quick", 200, 12), (3, 0, "thorough", 2400,
     h("retain_struct_n%d" % n, n + 1, "misc::retain::<_, false, true, %d, %d>" % (n, f), ["C15", "C16", "C10", "C20"], tier,
       "%s; retain with a predicate returning the k-th of %d symbolic decisions; final state: WF, CANON (if canonical before), slot partition; unwind %d" % (pre_txt(n, f), n, n + 2),
       ["PrefixMap::retain", "PrefixMap::_retain", "PrefixMap::_remove_node"], cost=cost, mem_gb=mem, optional=(n == 3))
-for n, tier, cost in ((2, "quick", 200), (3, "quick", 600)):
+for n, tier, cost in ((2, "quick", 200), (3, "thorough", 1500)):
     h("retain_lite_n%d" % n, n + 1, "misc::retain_lite::<_, false, %d>" % n, ["C10", "C01", "C04", "C20"], tier,
       "%s; retain(keep even values): values are symbolic, so every combination of decisions is covered; calls counted, len, probe lookup; recursion depth <= %d; unwind %d" % (pre_txt(n, 0), n, n + 1),
-      ["PrefixMap::retain", "PrefixMap::_retain", "PrefixMap::_remove_node"], cost=cost)
+      ["PrefixMap::retain", "PrefixMap::_retain", "PrefixMap::_remove_node"], cost=cost, mem_gb=(12 if n == 2 else 30), optional=(n == 3))
     h("retain_lite_struct_n%d" % n, n + 1, "misc::retain_lite::<_, true, %d>" % n, ["C15", "C16", "C10", "C20"], tier,
       "%s; retain(keep even values); final state: WF, CANON (if canonical before), slot partition; unwind %d" % (pre_txt(n, 0), n + 2),
-      ["PrefixMap::retain", "PrefixMap::_retain", "PrefixMap::_remove_node"], cost=cost)
+      ["PrefixMap::retain", "PrefixMap::_retain", "PrefixMap::_remove_node"], cost=cost, mem_gb=(12 if n == 2 else 30), optional=(n == 3))
 h("retain_obs_n2", 3, "misc::retain::<_, true, false, 2, 0>", ["C20", "C10"], "quick",
   "%s; retain with a predicate that reads the whole arena back at every invocation (models a panic at that invocation): WF, counter, entries = previous minus already rejected; unwind 4" % pre_txt(2, 0),
   ["PrefixMap::retain", "PrefixMap::_retain", "PrefixMap::_remove_node"], cost=300, mem_gb=16)
@@ -188,7 +192,7 @@ HELPERS = {"union": (0, "C05", ["next_indices", "next_indices_first_l", "next_in
 for fam, (code, cprop, fns) in HELPERS.items():
     for which, fn in enumerate(fns):
         for n, tier, cost in ((2, "quick", 60), (3, "quick", 120), (4, "thorough", 600)):
-            h("%s_helper%d_n%d" % (fam, which, n), n + 2, "setops::helper::<_, %d, %d, %d>" % (code, which, n), [cprop, "C20"], tier,
+            h("%s_helper%d_n%d" % (fam, which, n), n + 2, "setops::helper::<_, %d, %d, %d>" % (code, which, n), [cprop, "C18", "C20"], tier,
               "two WF arenas of N=%d slots each, any pair of reachable nodes%s; the private helper called through its verif-hooks wrapper; returned entries vs scope oracle (two probes); unwind %d"
               % (n, "" if which == 0 else " in the strict-cover relation the helper expects", n + 2),
               ["trieview::%s::%s" % ({"union": "union", "inter": "intersection", "diff": "difference"}[fam], fn)], cost=cost, stub="growmodel")
@@ -240,7 +244,7 @@ for op, nm in enumerate(("value_mut", "prefix_value_mut", "set", "remove")):
 def step(op, n, f, tier, cost, extra_props=(), groups=("ret", "len", "shape", "slots")):
     for g in groups:
         const, props = GROUPS[g]
-        props = list(props) + ["C20"] + list(extra_props)
+        props = list(dict.fromkeys(list(props) + ["C20"] + list(extra_props)))
         if op == "insert":
             m, gg = n + 2, max(f, 1)
             body = "step::insert::<_, {%s}, %d, %d, %d, %d>" % (const, n, f, m, gg)
@@ -303,45 +307,84 @@ H[:] = [x for x in H if not (x["name"].startswith("union_step_") and True)]
 # ------------------------------------------------------------------ quick tier: curated per property
 # (the thorough tier of a property runs every harness that lists it)
 QUICK = {
-    "C01": ["obs_get_n3", "obs_get_mut_n3", "obs_set_n3", "insert_ret_n2", "remove_ret_n3", "rkt_ret_n3", "rmchildren_ret_n3",
-            "clear_n3", "entry_top[01]_ret_n2", "entry_handle[01]_ret_n2", "retain_lite_n2", "hist2_[01]"],
-    "C02": ["obs_lpm_n3", "obs_lpm_mut_n3", "obs_cover_n3", "obs_set_n3"],
+    "C01": ["obs_get_n3", "insert_ret_n2", "remove_ret_n3", "rkt_ret_n3", "clear_n3", "entry_top0_ret_n2", "entry_handle1_ret_n2", "hist2_1"],
+    "C02": ["obs_lpm_n3", "obs_lpm_n4", "obs_lpm_mut_n3", "obs_cover_n3"],
     "C03": ["whole_iter_n3", "whole_iter_mut_n3", "whole_into_iter_n3", "step_iter_n3", "step_iter_mut_n3"],
-    "C04": ["insert_len_n2", "remove_len_n3", "rkt_len_n3", "rmchildren_len_n3", "clear_n3", "entry_top[01]_len_n2", "entry_handle[01]_len_n2",
-            "retain_lite_n2", "clone_n3", "hist2_1", "view_access[23]_n3", "occ_seq_plain_n2", "obs_set_n3"],
+    "C04": ["insert_len_n2", "remove_len_n3", "rkt_len_n3", "clear_n3", "entry_top0_len_n2", "entry_handle1_len_n2", "clone_n3",
+            "view_access[23]_n3", "occ_seq_plain_n2"],
     "C05": ["union_init_(ro|mut)_n2", "union_helper0_n3", "union_whole_n1"],
-    "C06": ["inter_(init|step)_(ro|mut)_n2", "inter_helper[012]_n3"],
-    "C07": ["(diff|covdiff)_init_(ro|mut)_n2", "covdiff_step_ro_n2", "diff_helper[012]_n3"],
+    "C06": ["inter_init_(ro|mut)_n2", "inter_step_ro_n2", "inter_helper[012]_n3"],
+    "C07": ["(diff|covdiff)_init_(ro|mut)_n2", "diff_helper[012]_n3"],
     "C08": ["union_init_ro_n2", "diff_init_(ro|mut)_n2", "union_whole_n1"],
-    "C09": ["obs_spm_n3", "obs_cover_n3", "obs_cover_proj_n2", "obs_set_n3"],
-    "C10": ["children_init[012]_n3", "step_iter_n3", "rmchildren_ret_n3", "retain_lite_n2", "retain_n2"],
+    "C09": ["obs_spm_n3", "obs_spm_n4", "obs_cover_n3", "cover_chain_n4"],
+    "C10": ["children_init[012]_n3", "step_iter_n3", "rmchildren_ret_n3", "retain_lite_n2"],
     "C11": ["view_at_(ro|mut)_n3", "view_nav_(ro|mut)_n3", "view_find[03]_ro_n3", "view_access[02]_n3"],
     "C12": ["view_find[0-3]_(ro|mut)_n3"],
-    "C13": ["obs_get_mut_n3", "obs_lpm_mut_n3", "whole_iter_mut_n3", "step_iter_mut_n3", "view_access[0-3]_n3", "inter_step_mut_n2",
-            "union_init_mut_n2", "diff_init_mut_n2", "covdiff_init_mut_n2"],
-    "C14": ["whole_iter_mut_n3", "step_iter_mut_n3", "view_nav_mut_n3", "view_find[02]_mut_n3", "view_access0_n3", "inter_step_mut_n2",
-            "obs_get_mut_n3"],
-    "C15": ["insert_shape_n2", "remove_shape_n[34]", "rkt_shape_n3", "rmchildren_shape_n3", "clear_n3", "entry_top0_shape_n2",
-            "entry_handle1_shape_n2", "retain_lite_struct_n2", "view_access2_n3", "canon_unique_n4", "hist2_1"],
-    "C16": ["insert_slots_n2", "remove_slots_n[34]", "rkt_slots_n3", "rmchildren_slots_n3", "clear_n3", "entry_top0_slots_n2",
-            "entry_handle1_slots_n2", "retain_lite_struct_n2"],
+    "C13": ["obs_get_mut_n3", "obs_lpm_mut_n3", "whole_iter_mut_n3", "step_iter_mut_n3", "view_access[02]_n3", "inter_step_mut_n2", "union_init_mut_n2"],
+    "C14": ["whole_iter_mut_n3", "step_iter_mut_n3", "view_nav_mut_n3", "view_find[02]_mut_n3", "view_access0_n3", "inter_init_mut_n2", "obs_get_mut_n3"],
+    "C15": ["insert_shape_n2", "remove_shape_n[34]", "rkt_shape_n3", "clear_n3", "entry_top0_shape_n2", "retain_lite_struct_n2", "canon_unique_n4"],
+    "C16": ["insert_slots_n2", "remove_slots_n[34]", "rkt_slots_n3", "rmchildren_slots_n3", "clear_n3", "entry_handle1_slots_n2"],
     "C17": ["alg_.*"],
-    "C18": ["obs_get_n3", "obs_lpm_n3", "obs_set_n3", "insert_ret_n2", "entry_top[01]_ret_n2", "entry_handle0_ret_n2", "whole_iter_n3",
-            "view_at_ro_n3", "view_access2_n3", "union_whole_n1", "inter_step_ro_n2", "hist2_0"],
+    "C18": ["obs_get_n3", "obs_lpm_n3", "insert_ret_n2", "entry_top0_ret_n2", "entry_handle0_ret_n2", "view_at_ro_n3", "union_whole_n1", "inter_helper0_n3"],
     "C19": ["eq_map_n1", "eq_set_n1", "clone_n3"],
-    "C20": ["retain_obs_n2", "alg_u8", "alg_u32", "alg_u128", "alg_ipv4net", "obs_get_n3", "obs_cover_n3", "insert_ret_n2", "remove_ret_n3",
-            "entry_handle1_ret_n2", "whole_iter_n3", "view_find0_ro_n3", "inter_step_ro_n2", "occ_seq_plain_n2",
-            "occ_seq_after_remove_.*_n2", "view_set_then_remove_n2", "entry_callback[012]_n2"],
+    "C20": ["retain_obs_n2", "alg_u8", "obs_get_n3", "remove_ret_n3", "occ_seq_plain_n2", "occ_seq_after_remove_.*_n2", "view_set_then_remove_n2", "entry_callback0_n2"],
     "SELFTEST": ["selftest_fail"],
 }
 import re as _re
+# every history-quantified property also runs the cheapest invariant-preservation harness
+for _p in INV_PROPS:
+    QUICK[_p] = QUICK[_p] + ["remove_slots_n3"]
 for x in H:
+    if x["name"] in ("eq_map_n2", "eq_set_n2", "eq_map_n3", "collect2", "whole_keys_values_clone_n2"):
+        x["optional"] = True
     if _re.fullmatch(r"union_helper[12]_n\d", x["name"]):
         x["optional"] = True
         x["mem_gb"] = 30
         x["note"] = "known to exceed memory in CBMC's post-processing (DESIGN.md, C05): reported inconclusive, does not fail the run"
 for x in H:
     x["quick_for"] = [p for p in x["props"] if any(_re.fullmatch(pat, x["name"]) for pat in QUICK.get(p, []))]
+# ------------------------------------------------------------------ thorough tier = quick list + deeper instances
+THOROUGH_EXTRA = {
+    "C01": ["obs_get_mut_n3", "obs_set_n3", "rmchildren_ret_n3", "entry_top1_ret_n2", "entry_handle0_ret_n2", "retain_lite_n2", "hist2_0", "remove_shape_n3",
+            "obs_get_n4", "obs_get_mut_n4", "insert_ret_n3", "remove_ret_n4", "entry_top[2-5]_ret_n2", "entry_handle2_ret_n2", "hist2_[23]",
+            "collect2", "retain_n2", "retain_lite_n3", "retain_n3"],
+    "C02": ["obs_set_n3", "obs_lpm_mut_n4", "obs_cover_n4", "cover_chain_n4", "remove_shape_n3"],
+    "C03": ["remove_shape_n3", "whole_.*_n4", "step_iter.*_n4", "whole_keys_values_clone_n2"],
+    "C04": ["rmchildren_len_n3", "entry_top1_len_n2", "entry_handle0_len_n2", "retain_lite_n2", "hist2_1", "obs_set_n3", "remove_shape_n3", "insert_len_n3", "remove_len_n4", "entry_top[2-5]_len_n2", "entry_handle2_len_n2", "view_access[01]_n3", "hist2_[023]", "rebuild2",
+            "retain_n2", "collect2", "obs_get_mut_n4", "whole_iter_n3"],
+    "C05": ["union_init_(ro|mut)_n3", "union_helper0_n[24]", "union_helper[12]_n[234]", "union_step[0-4]_(ro|mut)_n2", "union_whole_n2"],
+    "C06": ["inter_step_mut_n2", "inter_(init|step)_(ro|mut)_n3", "inter_helper[012]_n[24]"],
+    "C07": ["diff_step_(ro|mut)_n2", "covdiff_step_(ro|mut)_n2", "(diff|covdiff)_(init|step)_(ro|mut)_n3", "diff_helper[012]_n[24]"],
+    "C08": ["diff_step_(ro|mut)_n2", "union_init_ro_n3", "diff_init_(ro|mut)_n3", "union_step[0-4]_ro_n2", "union_whole_n2"],
+    "C09": ["obs_cover_proj_n2", "obs_set_n3", "obs_cover_n4", "remove_shape_n3"],
+    "C10": ["rmchildren_slots_n3", "retain_n2", "remove_shape_n3", "children_n[34]", "children_mut_n[34]", "into_children_n[34]", "children_init[012]_n4", "retain_struct_n2", "retain_n3", "retain_lite_n3",
+            "rmchildren_(len|shape)_n3", "step_iter_n4"],
+    "C11": ["remove_shape_n3", "view_at_(ro|mut)_n4", "view_nav_(ro|mut)_n4", "view_find[03]_(ro|mut)_n4", "view_find[03]_mut_n3", "view_access[13]_n3"],
+    "C12": ["remove_shape_n3", "view_find[0-3]_(ro|mut)_n4"],
+    "C13": ["view_access[13]_n3", "(union|diff|covdiff)_init_mut_n2", "remove_shape_n3", "obs_get_mut_n4", "obs_lpm_mut_n4", "whole_iter_mut_n4", "step_iter_mut_n4", "children_mut_n3", "diff_step_mut_n2", "covdiff_step_mut_n2",
+            "inter_step_mut_n3", "union_step[0-4]_mut_n2", "split_interleave_n3"],
+    "C14": ["inter_step_mut_n2", "view_nav_mut_n4", "view_find[0-3]_mut_n4", "view_find[13]_mut_n3", "view_nav_ro_n3", "step_iter_mut_n4", "whole_iter_mut_n4",
+            "split_interleave_n[34]", "covdiff_step_mut_n2", "diff_step_mut_n2", "obs_lpm_mut_n3"],
+    "C15": ["rmchildren_shape_n3", "entry_handle1_shape_n2", "view_access2_n3", "hist2_1", "insert_shape_n3", "entry_top1_shape_n2", "retain_struct_n2", "retain_lite_struct_n3", "retain_struct_n3", "rebuild2", "hist2_[023]"],
+    "C16": ["entry_top0_slots_n2", "retain_lite_struct_n2", "insert_slots_n3", "entry_top1_slots_n2", "retain_struct_n2", "retain_lite_struct_n3", "hist2_[023]"],
+    "C17": [],
+    "C18": ["obs_set_n3", "entry_top1_ret_n2", "whole_iter_n3", "view_access2_n3", "inter_step_ro_n2", "hist2_0", "remove_shape_n3", "obs_(get|lpm|spm|cover)_n4", "insert_ret_n3", "entry_top[2-5]_ret_n2", "entry_handle[12]_ret_n2", "whole_iter_n4", "view_at_(ro|mut)_n4",
+            "children_n3", "covdiff_step_ro_n2", "diff_step_ro_n2", "(union|inter|diff)_helper0_n[24]", "collect2"],
+    "C19": ["remove_shape_n3", "eq_map_n[23]", "eq_set_n2", "rebuild2", "collect2"],
+    "C20": [],
+}
+for x in H:
+    x["thorough_for"] = list(x["quick_for"])
+    for p in x["props"]:
+        if p not in x["thorough_for"] and any(_re.fullmatch(pat, x["name"]) for pat in THOROUGH_EXTRA.get(p, [])):
+            x["thorough_for"].append(p)
+    # C20: every public entry point that any quick tier reaches
+    if "C20" in x["props"] and x["quick_for"] and "C20" not in x["thorough_for"]:
+        x["thorough_for"].append("C20")
+for p, pats in THOROUGH_EXTRA.items():
+    for pat in pats:
+        if not any(_re.fullmatch(pat, x["name"]) and p in x["props"] for x in H):
+            print("WARNING: thorough pattern %s of %s matches no harness that lists the property" % (pat, p))
 for p, pats in QUICK.items():
     for pat in pats:
         if not any(_re.fullmatch(pat, x["name"]) and p in x["props"] for x in H):
